@@ -43,7 +43,7 @@ class Builtin:
 
 GLOBAL_NAMES = {n: Builtin(n) for n in (
     'len', 'min', 'max', 'int', 'float', 'abs', 'range', 'prange', 'sqrt', 'bool', 'tuple', 'list', 'enumerate',
-    'isinstance', 'any', 'all', 'sorted', 'set', 'zip', 'sum', 'type', 'slice', 'memoryview', 'ValueError', 'TypeError', 'IndexError')}
+    'isinstance', 'any', 'all', 'sorted', 'set', 'zip', 'sum', 'type', 'slice', 'memoryview', 'super', 'str', 'ValueError', 'TypeError', 'IndexError')}
 GLOBAL_NAMES['True'] = SBool(True)
 GLOBAL_NAMES['False'] = SBool(False)
 
@@ -142,6 +142,8 @@ def call(eng, s, fr, node):
                 return to_bool(args[0])
             return to_int(args[0])
         raise Unsupported("dtype call")
+    if isinstance(fv, ClassRef):
+        return construct(eng, s, fr, fv.cls, args, kwargs, lineno)
     if isinstance(fv, BoundMethod):
         return call_method(eng, s, fr, fv, args, kwargs, lineno, node)
     if isinstance(fv, Builtin):
@@ -320,6 +322,17 @@ def call_builtin(eng, s, fr, name, args, kwargs, lineno, node):
         return STuple([np_nonzero(eng, s, fr, args[0], lineno)])
     if name == 'memoryview':
         return args[0]
+    if name == 'np.isscalar':
+        return SBool(isinstance(args[0], (SInt, SFloat, SBool, SStr)))
+    if name == 'super':
+        me = s.env.get('self')
+        if isinstance(me, SRecord) and 'super' in me.fields:
+            return me.fields['super']
+        raise Unsupported("super() without a modelled parent")
+    if name == 'pa.array':
+        return pa_array(eng, s, fr, args, kwargs, lineno)
+    if name == 'pa.ListArray.from_arrays':
+        return pa_list_from_arrays(eng, s, fr, args, kwargs, lineno)
     if name == 'np.repeat':
         a, k = args[0], to_int(args[1])
         if not isinstance(a, SArr) or a.ndim != 1 or not k.concrete or k.v < 1:
@@ -371,6 +384,54 @@ def class_name(c):
     if isinstance(c, SFunc):
         return c.name
     raise Unsupported(f"class reference {c}")
+
+
+def construct(eng, s, fr, cls, args, kwargs, lineno):
+    """cls(...) for the classes the glue layer instantiates"""
+    from . import extract
+    anc = extract.mro(cls)
+    if 'GeometryListArray' in anc and len(args) == 1 and isinstance(args[0], SRecord) and args[0].cls == 'ListArray':
+        rep = args[0]
+        return SRecord(cls, {'listarray': rep, 'data': rep, 'numpy_dtype': DType('float64'), '_sindex': NONE,
+                             '_element_len': SInt(2)})
+    raise Unsupported(f"construction of {cls}")
+
+
+def pa_array(eng, s, fr, args, kwargs, lineno):
+    """pa.array(ndarray[, mask=bool ndarray]): an arrow array with those values; slot i is null iff mask[i]"""
+    a = args[0]
+    if not isinstance(a, SArr) or a.ndim != 1:
+        raise Unsupported("pa.array of a non-1-d-array")
+    mask = kwargs.get('mask', NONE)
+    if isinstance(mask, SArr):
+        eng.oblige(fr, s, 'pre', 'pa.array.mask-length', mask.length() == a.length(), lineno)
+    return SRecord('pa.Array', {'values': a, 'mask': mask, 'length': a.length()})
+
+
+def pa_list_from_arrays(eng, s, fr, args, kwargs, lineno):
+    """pa.ListArray.from_arrays(offsets, values): a list array with offset 0, len(offsets)-1 slots, the given
+    offsets buffer, child `values`; slot i is null iff the offsets array's mask says so (assumed pyarrow contract)"""
+    off, child = args[0], args[1]
+    if isinstance(off, SArr):
+        off = SRecord('pa.Array', {'values': off, 'mask': NONE, 'length': off.length()})
+    if not (isinstance(off, SRecord) and off.cls == 'pa.Array'):
+        raise Unsupported("from_arrays offsets")
+    o = off.fields['values']
+    eng.oblige(fr, s, 'pre', 'from_arrays.at-least-one-offset', o.length() >= 1, lineno)
+    if isinstance(child, SRecord) and child.cls == 'pa.Array':
+        if not isinstance(child.fields['mask'], SNone):
+            raise Unsupported("masked leaf values")
+        cb = (NONE, child.fields['values'])
+    elif isinstance(child, SRecord) and child.cls == 'ListArray':
+        if not (child.fields['offset'].concrete and child.fields['offset'].v == 0):
+            raise Unsupported("child list array with an offset")
+        cb = tuple(child.fields['bufs'].items)
+    else:
+        raise Unsupported("from_arrays child")
+    rep = SRecord('ListArray', {'offset': SInt(0), 'length': o.length() - 1,
+                                'bufs': STuple((NONE, o) + tuple(cb)), 'nullmask': off.fields['mask']})
+    rep.fields['m:buffers'] = lambda eng, s, fr, obj, args, kwargs, lineno: obj.fields['bufs']
+    return rep
 
 
 def seq_len(s, v):
@@ -458,6 +519,8 @@ def _dtype_of(dt):
         return dt
     if isinstance(dt, SStr):
         return DType(dt.s)
+    if isinstance(dt, Builtin) and dt.name in ('bool', 'int', 'float'):
+        return DType({'bool': 'bool', 'int': 'int64', 'float': 'float64'}[dt.name])
     raise Unsupported(f"dtype argument {dt}")
 
 
@@ -544,7 +607,9 @@ def np_array(eng, s, fr, args, kwargs, lineno):
 def array_copy(eng, s, arr):
     snap = _Snap(dict(s.heap))   # operands are read as they are NOW (numpy evaluates eagerly)
     if arr.ndim == 1:
-        return new_lambda_array(s, arr.elem, arr.base.dtype, arr.length(), lambda k: cell(snap, arr, k), 'copy')
+        r = new_lambda_array(s, arr.elem, arr.base.dtype, arr.length(), lambda k: cell(snap, arr, k), 'copy')
+        r.base.finite = arr.base.finite
+        return r
     if arr.ndim == 2:
         r, c = arr.shape()
         return new_lambda_array2(s, arr.elem, arr.base.dtype, r, c, lambda i, j: cell2(snap, arr, i, j), 'copy')
